@@ -35,6 +35,24 @@ import pyben
 logger = logging.getLogger(__name__)
 
 
+def _sort_key(item: tuple) -> bytes:
+    """
+    Return the raw bytes of a dictionary key for bencode key ordering.
+
+    Parameters
+    ----------
+    item : tuple
+        key, value pair of a decoded dictionary.
+
+    Returns
+    -------
+    bytes
+        the key as it is written to file.
+    """
+    key = item[0]
+    return key.encode("utf-8") if isinstance(key, str) else bytes(key)
+
+
 def filter_empty(args: dict, meta: dict, info: dict):
     """
     Remove the fields that were not used by the original file creator.
@@ -81,6 +99,8 @@ def edit_torrent(metafile: str, args: dict) -> dict:
     logger.debug("editing torrent file %s", metafile)
     meta = pyben.load(metafile)
     info = meta["info"]
+    info_edit = any(
+        args.get(key) is not None for key in ("comment", "source", "private"))
     filter_empty(args, meta, info)
 
     if "comment" in args:
@@ -116,7 +136,10 @@ def edit_torrent(metafile: str, args: dict) -> dict:
         elif isinstance(val, list):
             meta["httpseeds"] = val
 
+    if info_edit:
+        info = dict(sorted(info.items(), key=_sort_key))
     meta["info"] = info
+    meta = dict(sorted(meta.items(), key=_sort_key))
     data = pyben.dumps(meta)
     tempfile = metafile + ".tmp"
     try:
